@@ -129,6 +129,49 @@ struct HmAdapter : Adapter {
       else if (o.name == "ite" && o.res != "end") { auto p = o.res.find('>'); std::string nx = o.res.substr(p + 1); if (nx != "end") if (!yield(o, atol(nx.c_str()))) return false; }
       else if (o.name == "trav" && o.res != "-") { std::set<long> seen; std::istringstream ss(o.res); std::string w; while (std::getline(ss, w, ',')) { if (w.empty()) continue; long k = atol(w.c_str()); if (!ever.count(k)) { why = "traversal yielded key " + w + " that was never inserted"; return false; } if (seen.count(k)) { bool reins = false; for (auto& q : h) if ((q.name == "ins" || q.name == "insget" || q.name == "getins" || q.name == "getlazy") && q.args[0] == k && (q.ret < 0 || q.ret > o.inv)) reins = true; if (!reins) { why = "traversal yielded key " + w + " twice although it was not re-inserted"; return false; } } seen.insert(k); } }
     }
+    // 3. completeness (C09): a traversal that starts at begin() and runs to end() yields every key that is in the container for the
+    //    whole traversal: inserted (successfully, call returned) before the traversal started and never the target of an erase
+    //    (erase(key), erase(iterator)) that could take effect after that insertion (conservative: every such erase returned before
+    //    the insertion was invoked).
+    //    Precedence is op_precedes (real time, or happens-before in weak-memory mode).
+    auto stable_keys = [&](const OpRec& first) {
+      std::set<long> st;
+      for (auto& q : h) {
+        bool isins = (q.name == "ins" || q.name == "insget" || q.name == "getins" || q.name == "getlazy") && q.done && q.res == "new";
+        if (!isins || !op_precedes(q, first)) continue;
+        long k = q.args[0]; bool ok = true;
+        for (auto& e : h) {
+          bool hits = false;
+          if (e.name == "del" && e.args[0] == k) hits = true;
+          if (e.name == "ite") { if (!e.done) hits = true; else if (e.res != "end" && atol(e.res.c_str()) == k) hits = true; }
+          if (hits && !op_precedes(e, q)) { ok = false; break; }
+        }
+        if (ok) st.insert(k);
+      }
+      return st;
+    };
+    auto complete = [&](const std::set<long>& yielded, const OpRec& first, const std::string& what) -> bool {
+      for (long k : stable_keys(first)) if (!yielded.count(k)) { why = what + " from begin() to end() did not yield key " + std::to_string(k) + " although it was in the container during the whole traversal"; return false; }
+      return true;
+    };
+    for (auto& o : h) if (o.name == "trav" && o.done) {
+      std::set<long> y; std::istringstream ss(o.res); std::string w; while (std::getline(ss, w, ',')) if (!w.empty() && w != "-") y.insert(atol(w.c_str()));
+      if (!complete(y, o, "traversal of T" + std::to_string(o.tid))) return false;
+    }
+    {
+      std::map<int, std::pair<const OpRec*, std::set<long>>> cur;   // tid -> (the itb that began the traversal, keys yielded so far)
+      for (auto& o : h) {
+        if (!o.done) { cur.erase(o.tid); continue; }
+        auto nextkey = [&](const std::string& r) { auto p = r.find('>'); return p == std::string::npos ? r : r.substr(p + 1); };
+        if (o.name == "itb") { cur[o.tid] = {&o, {}}; if (o.res == "end") { if (!complete(cur[o.tid].second, o, "iterator traversal of T" + std::to_string(o.tid))) return false; cur.erase(o.tid); } else cur[o.tid].second.insert(atol(o.res.c_str())); }
+        else if (o.name == "itf" || o.name == "itr") cur.erase(o.tid);
+        else if ((o.name == "itn" || o.name == "ite") && cur.count(o.tid)) {
+          std::string nx = nextkey(o.res);
+          if (nx == "end") { if (!complete(cur[o.tid].second, *cur[o.tid].first, "iterator traversal of T" + std::to_string(o.tid))) return false; cur.erase(o.tid); }
+          else cur[o.tid].second.insert(atol(nx.c_str()));
+        }
+      }
+    }
     return true;
   }
 };
